@@ -147,7 +147,7 @@ Submit(a) ==
        IN Commit(r, <<sub>>, <<>>, [env EXCEPT !.keys = key],
                  [a |-> "Submit", kind |-> a.kind, qos |-> a.qos, tmo |-> IF a.tmo = None THEN -1 ELSE (a.tmo * 1000) \div TPS, retain |-> a.retain,
                   topic |-> a.topic, alias |-> a.ualias, entries |-> IF a.n = 0 THEN 1 ELSE a.n, variant |-> IF a.need \in {"none", "oversize"} THEN "" ELSE a.need,
-                  size |-> IF a.need = "oversize" THEN 300 ELSE IF a.units > 1 THEN 40 ELSE 0])
+                  size |-> IF a.need = "oversize" THEN 300 ELSE IF a.units > 1 THEN 28 ELSE 0])
 
 UserDisc ==
     /\ "Disconnect" \in Others
@@ -178,7 +178,9 @@ Svc(cap) ==
               sv == Ev(es, "Service", [cap |-> cap, pre |-> es.buf, out |-> out, result |-> r.res, state |-> r.s.st, pwc |-> B2I(r.s.pwc)])
           IN /\ r.valid
              /\ Commit([s |-> r.s, res |-> r.res, evs |-> r.evs], <<sv>>, <<>>, env,
-                       [a |-> "Service", cap |-> IF cap = 1 THEN 5 ELSE IF cap = 2 THEN 12 ELSE 4096])
+                       \* bytes for the harness: one unit holds any ordinary packet (a CONNECT with a one-character client id is 16 bytes, an
+                       \* ordinary PUBLISH / SUBSCRIBE 9 - 12), two units hold a "big" one (about 38 bytes), three units hold everything
+                       [a |-> "Service", cap |-> IF cap = 1 THEN 20 ELSE IF cap = 2 THEN 40 ELSE 4096])
 
 WriteDone ==
     /\ es.pwc
